@@ -429,7 +429,48 @@ def _desentinel(program, module, node):
     return ast.fix_missing_locations(T().visit(node)), member
 
 
+def check_prefix_guard(program, rep):
+    """`p, s, last = key.rpartition(c)`: p is empty both when c does not occur
+    (s == '') and for keys of the form c + 'x' (s == c).  A walk over the
+    prefix that is skipped when p is falsy treats '/x' as the plain key 'x',
+    although its parts are ['', 'x'] - m['/x'] and m['']['x'] then denote
+    different things."""
+    rm = program.cls('ResourceMap')
+    for f in rm.methods.values():
+        for st in ast.walk(f.node):
+            if not (isinstance(st, ast.Assign) and len(st.targets) == 1
+                    and isinstance(st.targets[0], ast.Tuple)
+                    and len(st.targets[0].elts) == 3
+                    and all(isinstance(e, ast.Name)
+                            for e in st.targets[0].elts)
+                    and isinstance(st.value, ast.Call)
+                    and isinstance(st.value.func, ast.Attribute)
+                    and st.value.func.attr in ('rpartition', 'partition')):
+                continue
+            p_ = st.targets[0].elts[0 if st.value.func.attr == 'rpartition'
+                                    else 2].id
+            for n in ast.walk(f.node):
+                if isinstance(n, (ast.If, ast.IfExp)) and isinstance(
+                        n.test, ast.Name) and n.test.id == p_:
+                    body = n.body if isinstance(n.body, list) else [n.body]
+                    if any(isinstance(x, ast.Call) and isinstance(
+                            x.func, ast.Attribute) and x.func.attr == 'split'
+                            and isinstance(x.func.value, ast.Name)
+                            and x.func.value.id == p_
+                            for b in body for x in ast.walk(b)):
+                        rep.bad('C11.lookup', f.where, n.test,
+                                f'the walk over the key parts is skipped when '
+                                f'`{p_}` (the text before the last separator) '
+                                'is empty - which is also the case for keys '
+                                'written with ONE leading separator: '
+                                "m['/x'] is taken for m['x'] although its "
+                                "parts are ['', 'x'], so m['/x'] and "
+                                "m['']['x'] denote different resources",
+                                line=n.test.lineno)
+
+
 def check_lookup(program, rep):
+    check_prefix_guard(program, rep)
     rm = program.cls('ResourceMap')
     for name, called in (('__getitem__', True), ('get', False)):
         f = program.method('ResourceMap', name, inherited=False)
@@ -581,7 +622,53 @@ def check_lookup(program, rep):
               'KeyError, or swallows other errors', line=f.node.lineno)
 
 
+def check_identity(program, rep):
+    """Back-links name ONE parent object.  When maps (or handles) compare by
+    content, a guard written `x.parent == self` also holds for a different
+    map with equal content - e.g. two empty maps - and the guard takes a child
+    that lives elsewhere for its own."""
+    rm = program.cls('ResourceMap')
+    fam = [rm] + program.subclasses(rm)
+    try:
+        hd = program.cls('Handle')
+        fam += [hd] + program.subclasses(hd)
+    except AnalysisError:
+        pass
+    by_content = [c for c in fam if '__eq__' in c.methods]
+    n = 0
+    bad = None
+    for c in fam:
+        for f in c.methods.values():
+            for cmp_ in ast.walk(f.node):
+                if not (isinstance(cmp_, ast.Compare) and len(cmp_.ops) == 1):
+                    continue
+                sides = [cmp_.left, cmp_.comparators[0]]
+                if not any(isinstance(s, ast.Attribute) and s.attr == 'parent'
+                           for s in sides):
+                    continue
+                if any(isinstance(s, ast.Constant) for s in sides):
+                    continue
+                n += 1
+                if isinstance(cmp_.ops[0], (ast.Eq, ast.NotEq)) \
+                        and by_content and bad is None:
+                    bad = (f, cmp_)
+    if bad is not None:
+        rep.bad('C11.backlink', bad[0].where, bad[1],
+                f'{by_content[0].name} compares by content (__eq__ is '
+                f'defined) and this guard tests the back-link with '
+                f'{norm(bad[1])}: a child filed in ANOTHER map of equal '
+                'content (two empty maps are equal) passes for a child of '
+                'this one - its parent/key are reset (or kept) by the wrong '
+                'map', line=bad[1].lineno)
+    else:
+        rep.ok('C11.backlink', f'{rm.module.relpath}:ResourceMap',
+               'guards on .parent',
+               f'{n} comparison(s) of a back-link: by identity, or no class '
+               'of the tree defines content equality', nontrivial=False)
+
+
 def run(program, rep, tier):
+    check_identity(program, rep)
     _D.counts = [0, 1, 2, 3] if tier == 'thorough' else [0, 1, 2]
     rep.extra['loop_counts'] = _D.counts
     check_setitem(program, rep)
